@@ -220,7 +220,15 @@ pub fn run(cli: &Cli) {
             }
         }
     }
+    // device pairing through the relay of a live server, both ways of sharing the URL
+    for (k, inverted) in [false, true].into_iter().enumerate() {
+        if let Err(e) = rt.block_on(crate::pairing::run_case(inverted, cli.seed.wrapping_mul(1_000_003).wrapping_add(900 + k as u64), &mut rep)) {
+            rep.notes.push(format!("pairing case inverted={inverted} aborted: {e}"));
+            rep.spec_fail("c03-harness-aborted", json!({"pairing": true, "inverted": inverted}), &e.to_string());
+        }
+    }
     rep.rule = format!("{n} accounts per backend: five secret kinds with a distinct 22-character marker in every text position (labels, tags, values, urls, list keys/values, custom fields, comment, recovery note), folder description, an attachment, an update and a move; two devices synced through real server storage; \\
-        every file under both client directories and the server directory (sqlite pages and WAL, vaults, event logs, blobs, snapshots) and every encoded sync request/response is searched for every marker as raw UTF-8, hex, HEX, base64 / base64url at the 3 alignments, UTF-16 LE/BE; the account password is searched too; a backup archive (raw and per entry) and the SDK's complete log output (tracing at TRACE level) are searched as well");
+        every file under both client directories and the server directory (sqlite pages and WAL, vaults, event logs, blobs, snapshots) and every encoded sync request/response is searched for every marker as raw UTF-8, hex, HEX, base64 / base64url at the 3 alignments, UTF-16 LE/BE; the account password is searched too; a backup archive (raw and per entry) and the SDK's complete log output (tracing at TRACE level) are searched as well; \
+        two device pairing sessions (URL shared by the offering / by the accepting device) run through the relay of a live server behind a recording TCP proxy: the TCP streams and the unmasked websocket payloads are searched for both device signing keys, the account password and a secret's text");
     rep.write(&cli.out);
 }
